@@ -19,7 +19,8 @@ LEVEL_TEXT = ("Each case is a history of up to 60 datagrams, every one tagged by
               "port must still be delivered, also after callbacks that raised. Histories are sampled and shrunk; 'never stops later "
               "deliveries' is checked up to the sentinel barrier.")
 RULE = ("case = ports (1..4) + callback indices that raise + datagram list (kind, port, parameters); non-trivial = at least one valid "
-        "datagram after a bad datagram or a raising callback on the same port; distinct by the label sequence with ports.")
+        "datagram after a bad datagram or a raising callback on the same port; distinct by the label sequence with ports."
+        ' Datagram kinds include byte-identical repeats of earlier datagrams (same or other port); the bridge is optionally stopped and started again before the traffic; the callback is a bound method, function, partial, bound method of an otherwise unreferenced object, or a callable that is falsy.')
 ASSUMPTIONS = [
     "loopback UDP keeps per-socket order; kernel drops (from /proc/net/udp) or a sentinel that needed retransmission make the case inconclusive",
     "gate-passing frames of a known model that the reference cannot vouch for (bit flips, undecodable fields) are 'unspecified': their tags are ignored, only their isolation is checked",
